@@ -32,6 +32,8 @@ def strategy(tier):
         "user": st.lists(st.fixed_dictionaries({"at": st.integers(5, 300), "cmd": st.sampled_from(["try", "try", "show"])}), max_size=3),
         # batches on non-exclusive nodes may share a host name
         "shared_node_hosts": st.sampled_from([0, 0, 0, 1, 2]),
+        # operator commands bound to the end of a batch, held back between two lock holds (common.late_ops)
+        "late": C.late_ops(),
     })
 
 
@@ -49,6 +51,7 @@ def run_case(case):
                     sim.user_cmd(["try-submit-jobs", sim.out] if cmd == "try" else ["show-status", "-o", sim.out, "-n"])
 
             sim.w.user_events.append((u["cmd"], pred, fire, True))
+        C.install_late_ops(sim, case.get("late"))
         seen, stop = set(), []
 
         def observer(rec):
